@@ -174,7 +174,9 @@ def pattern_strings(ctx, n):
     rng = ctx.rng
     lits = ["", "x", "a b", "é𝄞", "q\"uote", "back\\slash", "nl\nline", "tab\t", "\x00ctl\x7f", "{}[]", "50%% off", "%%", "%%%%", "a%%b%%c", "  ", "'", "`", "$gontainer-not", "@not-a-service", "!valueless"]
     refs = ["%i%", "%u%", "%f%", "%bt%", "%nl%", "%s%", "%empty%", "%uni%"]
-    fns = ['%env("VERIF_A")%', '%env("VERIF_MISSING", "dflt")%', '%envInt("VERIF_N")%', '%envInt("VERIF_MISSING", 5)%', '%env("VERIF_MISSING")%', '%envInt("VERIF_A")%', '%todo()%', '%todo("later")%']
+    fns = ['%env("VERIF_A")%', '%env("VERIF_MISSING", "dflt")%', '%envInt("VERIF_N")%', '%envInt("VERIF_MISSING", 5)%', '%env("VERIF_MISSING")%', '%envInt("VERIF_A")%', '%todo()%', '%todo("later")%',
+           # a variable that is SET to the empty string exists: no default, no "does not exist"
+           '%env("VERIF_E")%', '%env("VERIF_E", "dflt")%', '%envInt("VERIF_E")%', '%envInt("VERIF_E", 5)%', '%envInt("VERIF_NEG")%', '%envInt("VERIF_NEG", 1)%']
     out = list(lits) + refs + fns
     for _ in range(n):
         k = rng.randint(1, 4)
@@ -189,7 +191,9 @@ def pattern_strings(ctx, n):
 def level_b(ctx):
     n = 150 if ctx.quick else 3000
     pats = pattern_strings(ctx, n)
-    params = {"i": -5, "u": 2**63 + 1, "f": 1.25, "bt": True, "nl": None, "s": "str", "empty": "", "uni": "é𝄞\n"}
+    params = {"i": -5, "u": 2**63 + 1, "f": 1.25, "bt": True, "nl": None, "s": "str", "empty": "", "uni": "é𝄞\n",
+              # look-alikes: equal printed form, different YAML type — each keeps its own type
+              "ten_i": 10, "ten_s": "10", "t_b": True, "t_s": "true", "n_s": "<nil>", "f_s": "1.25", "ten_i2": 10}
     names = []
     for k, p in enumerate(pats):
         params["x%d" % k] = p
